@@ -32,9 +32,30 @@ func DrawCoreCfg(t *rapid.T) CoreCfg {
 	}
 	c.EP[0] = DrawEPConfig(t, "A.")
 	c.EP[1] = DrawEPConfig(t, "B.")
+	c.ClockOff = DrawClockOff(t)
 	// both ends must agree on the MTU class for the raw core: a segment cut by
 	// one end has to fit the other's pool buffers, which any MTU <= 1500 does.
 	return c
+}
+
+// DrawClockOff draws what the library's 32-bit millisecond clock reads when
+// the run starts: 0 (a process that has just started) in two cases of three,
+// otherwise minutes or weeks of uptime, anywhere, or shortly before the 2^31
+// and 2^32 wrap points so that the run crosses them.
+func DrawClockOff(t *rapid.T) uint32 {
+	switch rapid.IntRange(0, 8).Draw(t, "clockKind") {
+	case 0:
+		return rapid.SampledFrom([]uint32{65_000, 70_000, 1 << 20, 1 << 24, 3_000_000_000}).Draw(t, "clockUp")
+	case 1:
+		return rapid.Uint32().Draw(t, "clockAny")
+	case 2:
+		k := uint32(rapid.SampledFrom([]int{1, 40, 400, 4000, 60_000}).Draw(t, "clockBefore"))
+		if rapid.Bool().Draw(t, "clockWrap31") {
+			return 0x80000000 - k
+		}
+		return 0 - k
+	}
+	return 0
 }
 
 // DrawWriteSizes draws write sizes around the interesting boundaries of mss.
